@@ -285,8 +285,6 @@ Section Raise.
     - apply (i_cnt1 HI).
     - apply (i_cnt7 HI).
     - apply (i_mut HI).
-    - apply (i_um HI).
-    - apply (i_ul HI).
     - apply (i_nthr HI).
     - apply (i_clen HI).
     - apply rz_dead.
@@ -791,8 +789,6 @@ Section SeenAtFacts.
     - rewrite A. apply (i_cnt1 HI).
     - rewrite A. apply (i_cnt7 HI).
     - rewrite B. apply (i_mut HI).
-    - rewrite C. apply (i_um HI).
-    - rewrite D. apply (i_ul HI).
     - apply (i_nthr HI).
     - apply (i_clen HI).
     - intros k Hk. rewrite A in Hk. rewrite (F k ltac:(lia)). apply (i_dead HI Hk).
@@ -1337,10 +1333,11 @@ Proof.
   - right. apply is_seen_by_current_spec. exists m, w. split; [exact Hn | lia].
 Qed.
 
-Lemma sync_store_le_join : forall sync0 c o, vle (sync_store sync0 c vv_new o) (vv_join sync0 c).
+Lemma sync_store_le_join : forall sync0 c rel o, vle rel c ->
+  vle (sync_store sync0 c rel o) (vv_join sync0 c).
 Proof.
-  intros sync0 c o q. unfold sync_store.
-  destruct (ord_rel o); rewrite ?vv_get_join, ?vv_new_get; lia.
+  intros sync0 c rel o Hrel q. unfold sync_store. specialize (Hrel q).
+  destruct (ord_rel o); rewrite ?vv_get_join; lia.
 Qed.
 
 Section StoreW.
@@ -1348,6 +1345,7 @@ Section StoreW.
   Variable s : atomic_state.
   Variable cs : list vv.
   Variables (t : nat) (c sync0 : vv) (v : N) (o : ord) (src : option (nat * nat)).
+  Variable rel : vv.
   Hypothesis HI : InvO own s cs.
   Hypothesis HL : LinkO own rk s.
   Hypothesis HC : Closed own s.
@@ -1359,7 +1357,7 @@ Section StoreW.
 
   Let n := at_cnt s.
   Let own' := fun k => if Nat.eqb k n then t else own k.
-  Let s' := atomic_store_from s t c vv_new sync0 v o src.
+  Let s' := atomic_store_from s t c rel sync0 v o src.
   Let MN := store_from_mo s c src.
   Let Kn (a : nat) : Prop := hbk own s a <= vv_get MN (own a).
 
@@ -1380,26 +1378,26 @@ Section StoreW.
   Hypothesis C1 : forall r sl sid, r < n -> st_rmw_src (get_store s r) = Some (sl, sid) ->
     Kn sl -> Kn r.
   Hypothesis HsyN : forall a, a < n ->
-    is_seen_by_current (st_seen (get_store s a)) (sync_store sync0 c vv_new o) = true -> Kn a.
+    is_seen_by_current (st_seen (get_store s a)) (sync_store sync0 c rel o) = true -> Kn a.
 
   Lemma sw_get : forall k, get_store s' k =
     if Nat.eqb k n
-    then mkStore v c MN (sync_store sync0 c vv_new o) (seen_touch seen_new t (vv_get c t))
+    then mkStore v c MN (sync_store sync0 c rel o) (seen_touch seen_new t (vv_get c t))
                  (is_seq_cst o) n src
     else get_store s k.
-  Proof. intros k. apply (sp_get t c sync0 v o src HI Hroom k). Qed.
+  Proof. intros k. apply (sp_get t c sync0 v o src rel HI Hroom k). Qed.
 
   Lemma sw_old : forall k, k < n -> get_store s' k = get_store s k.
   Proof. intros k Hk. rewrite sw_get. destruct (Nat.eqb_spec k n); [lia | reflexivity]. Qed.
   Lemma sw_new : get_store s' n =
-    mkStore v c MN (sync_store sync0 c vv_new o) (seen_touch seen_new t (vv_get c t))
+    mkStore v c MN (sync_store sync0 c rel o) (seen_touch seen_new t (vv_get c t))
             (is_seq_cst o) n src.
   Proof. rewrite sw_get, Nat.eqb_refl. reflexivity. Qed.
 
   Lemma sw_K_old : forall a b, a < n -> b < n -> (K own' s' a b <-> K own s a b).
-  Proof. intros a b Ha Hb. apply (sp_K_old c sync0 v o src HI Ht Hroom Hfr Hlen Ha Hb). Qed.
+  Proof. intros a b Ha Hb. apply (sp_K_old c sync0 v o src rel HI Ht Hroom Hfr Hlen Ha Hb). Qed.
   Lemma sw_K_n_old : forall b, b < n -> ~ K own' s' n b.
-  Proof. intros b Hb. apply (@sp_K_n_old own s cs t c sync0 v o src HI Ht Hroom Hfr Hlen b Hb). Qed.
+  Proof. intros b Hb. apply (@sp_K_n_old own s cs t c sync0 v o src rel HI Ht Hroom Hfr Hlen b Hb). Qed.
   Lemma sw_K_old_n : forall a, a < n -> (K own' s' a n <-> Kn a).
   Proof.
     intros a Ha. unfold K, Kn, hbk, mo, own'. rewrite sw_new, (sw_old Ha).
@@ -1528,15 +1526,15 @@ Proof.
 Qed.
 
 (* ---- a plain store ---- *)
-Theorem plain_store_good : forall own rk s cs t c v o,
+Theorem plain_store_good : forall own rk s cs t c rel v o,
   InvO own s cs -> LinkO own rk s -> Closed own s -> Sy own s ->
   t < length cs -> at_cnt s < MAX_ATOMIC_HISTORY ->
-  vv_get (clk cs t) t < vv_get c t -> t < length c ->
+  vv_get (clk cs t) t < vv_get c t -> t < length c -> vle rel c ->
   let own' := fun k => if Nat.eqb k (at_cnt s) then t else own k in
-  let s' := atomic_store_from s t c vv_new vv_new v o None in
+  let s' := atomic_store_from s t c rel vv_new v o None in
   (exists rk', LinkO own' rk' s') /\ Closed own' s' /\ Sy own' s'.
 Proof.
-  intros own rk s cs t c v o HI HL HC HSy Ht Hroom Hfr Hlen. cbv zeta.
+  intros own rk s cs t c rel v o HI HL HC HSy Ht Hroom Hfr Hlen Hrel. cbv zeta.
   set (n := at_cnt s).
   set (N := S (list_max' (map rk (seq 0 n)))).
   set (rk' := fun k => if Nat.eqb k n then N else rk k).
@@ -1555,19 +1553,19 @@ Proof.
   { intros r sl sid Hr _ [_ H]. rewrite (Hold r Hr), Hnew in H. pose proof (HltN r Hr). lia. }
   assert (C1 := @store_C1 own rk s cs t c None HI HL Ht Hroom Hfr Hlen (fun r sl sid _ _ => eq_refl)).
   assert (HsyN : forall a, a < n ->
-            is_seen_by_current (st_seen (get_store s a)) (sync_store vv_new c vv_new o) = true ->
+            is_seen_by_current (st_seen (get_store s a)) (sync_store vv_new c rel o) = true ->
             hbk own s a <= vv_get (store_from_mo s c None) (own a)).
   { intros a Ha H.
     assert (Hs : is_seen_by_current (st_seen (get_store s a)) c = true).
-    { apply (seen_clock_mono _ _ _ (sync_store_le_join vv_new c o)) in H.
+    { apply (seen_clock_mono _ _ _ (@sync_store_le_join vv_new c rel o Hrel)) in H.
       apply seen_join_or in H. destruct H as [H|H]; [|exact H].
       apply (seen_clock_mono _ _ _ (vle_new c) H). }
     pose proof (@sp_seen_le own s cs t c None HI Ht Hroom Hfr Hlen a Ha Hs (own a)) as Hle.
     pose proof (i_hbmo HI Ha) as Hk. unfold K in Hk. lia. }
   split; [exists rk'|split].
-  - apply (@store_witness own rk s cs t c vv_new v o None HI HL Ht Hroom Hfr Hlen rk' R2 R1n R3 R4 I).
-  - apply (@store_closed own rk s cs t c vv_new v o None HI HL HC Ht Hroom Hfr Hlen rk' I C1).
-  - apply (@store_sy own s cs t c vv_new v o None HI HSy Ht Hroom Hfr Hlen HsyN).
+  - apply (@store_witness own rk s cs t c vv_new v o None rel HI HL Ht Hroom Hfr Hlen rk' R2 R1n R3 R4 I).
+  - apply (@store_closed own rk s cs t c vv_new v o None rel HI HL HC Ht Hroom Hfr Hlen rk' I C1).
+  - apply (@store_sy own s cs t c vv_new v o None rel HI HSy Ht Hroom Hfr Hlen HsyN).
 Qed.
 
 (* ---- upper bounds for the clock folds ---- *)
@@ -1612,20 +1610,20 @@ Section RmwUb.
 End RmwUb.
 
 (* ---- the store half of an RMW ---- *)
-Theorem rmw_store_good : forall own rk s cs t c v o idx,
+Theorem rmw_store_good : forall own rk s cs t c rel v o idx,
   InvO own s cs -> LinkO own rk s -> Closed own s -> Sy own s ->
   t < length cs -> at_cnt s < MAX_ATOMIC_HISTORY ->
-  vv_get (clk cs t) t < vv_get c t -> t < length c ->
+  vv_get (clk cs t) t < vv_get c t -> t < length c -> vle rel c ->
   idx < at_cnt s ->
   (forall x, x < at_cnt s -> x <> idx -> ~ K own s idx x) ->
   (forall x, x < at_cnt s -> is_seen_by_current (st_seen (get_store s x)) c = true -> K own s x idx) ->
   is_seen_by_current (st_seen (get_store s idx)) c = true ->
   let own' := fun k => if Nat.eqb k (at_cnt s) then t else own k in
-  let s' := atomic_store_from s t c vv_new (st_sync (get_store s idx)) v o
+  let s' := atomic_store_from s t c rel (st_sync (get_store s idx)) v o
               (Some (idx, st_id (get_store s idx))) in
   (exists rk', LinkO own' rk' s') /\ Closed own' s' /\ Sy own' s'.
 Proof.
-  intros own rk s cs t c v o idx HI HL HC HSy Ht Hroom Hfr Hlen Hidx Hmax HseenB Hidxseen. cbv zeta.
+  intros own rk s cs t c rel v o idx HI HL HC HSy Ht Hroom Hfr Hlen Hrel Hidx Hmax HseenB Hidxseen. cbv zeta.
   rewrite (lk_id HL Hidx).
   set (n := at_cnt s). set (src := Some (idx, idx)).
   set (MN := store_from_mo s c src).
@@ -1715,10 +1713,10 @@ Proof.
     apply (Hmax r Hr ltac:(lia)). apply (lk_ord HL Hr Hs). }
   assert (C1 := @store_C1 own rk s cs t c src HI HL Ht Hroom Hfr Hlen Hneq).
   assert (HsyN : forall a, a < n ->
-            is_seen_by_current (st_seen (get_store s a)) (sync_store (st_sync (get_store s idx)) c vv_new o) = true ->
+            is_seen_by_current (st_seen (get_store s a)) (sync_store (st_sync (get_store s idx)) c rel o) = true ->
             hbk own s a <= vv_get MN (own a)).
   { intros a Ha H.
-    apply (seen_clock_mono _ _ _ (sync_store_le_join (st_sync (get_store s idx)) c o)) in H.
+    apply (seen_clock_mono _ _ _ (@sync_store_le_join (st_sync (get_store s idx)) c rel o Hrel)) in H.
     apply seen_join_or in H.
     pose proof (i_hbmo HI Ha) as Hk. unfold K in Hk.
     destruct H as [H1|H1].
@@ -1729,9 +1727,9 @@ Proof.
     - pose proof (@sp_seen_le own s cs t c src HI Ht Hroom Hfr Hlen a Ha H1 (own a)) as Hle.
       fold MN in Hle. lia. }
   split; [exists rk'|split].
-  - apply (@store_witness own rk s cs t c (st_sync (get_store s idx)) v o src HI HL Ht Hroom Hfr Hlen rk' R2 R1n R3 R4 Hsrc).
-  - apply (@store_closed own rk s cs t c (st_sync (get_store s idx)) v o src HI HL HC Ht Hroom Hfr Hlen rk' Hsrc C1).
-  - apply (@store_sy own s cs t c (st_sync (get_store s idx)) v o src HI HSy Ht Hroom Hfr Hlen HsyN).
+  - apply (@store_witness own rk s cs t c (st_sync (get_store s idx)) v o src rel HI HL Ht Hroom Hfr Hlen rk' R2 R1n R3 R4 Hsrc).
+  - apply (@store_closed own rk s cs t c (st_sync (get_store s idx)) v o src rel HI HL HC Ht Hroom Hfr Hlen rk' Hsrc C1).
+  - apply (@store_sy own s cs t c (st_sync (get_store s idx)) v o src rel HI HSy Ht Hroom Hfr Hlen HsyN).
 Qed.
 
 (* ---- consequences of LoadFacts ---- *)
@@ -1828,7 +1826,7 @@ Proof.
   apply existsb_eqb_In in He. apply (load_candidates_spec _ _ _ _ _ _ Hm idx) in He.
   destruct He as [_ [Hidx Hall]].
   unfold atomic_load_g in Hstep.
-  rewrite (track_load_ok' HI Ht (sf_le cs t : vle (clk cs t) c)) in Hstep. cbv zeta in Hstep.
+  destruct (track_load s c) as [s1x|px] eqn:Htlx; [|discriminate]. apply track_load_inl in Htlx. subst s1x. cbv zeta in Hstep.
   inversion Hstep as [Hst]. clear Hstep Hst.
   assert (Hcand : forall x, x < at_cnt (tl_state s c) -> x <> idx ->
             is_seen_by_current (st_seen (get_store (tl_state s c) x)) c = true ->
@@ -1954,74 +1952,110 @@ Proof.
   apply (HSyM x idx Hx Hidx H).
 Qed.
 
-Theorem mstep_goodO : forall own rk s cs t op s' cs',
-  GoodO own rk s cs -> StampO s cs -> mstep RModel (s, cs) t op = Some (s', cs') ->
+(* ---- the store and RMW steps with an arbitrary released clock [rel]
+   (Ops.v passes t_rel; mstep is the instance rel = vv_new) ---- *)
+Definition store_stepR (st : mstate) (t : nat) (rel : vv) (v : N) (o : ord) : option mstate :=
+  let '(s, cs) := st in
+  if negb (Nat.ltb t (length cs)) then None else
+  if Nat.leb MAX_ATOMIC_HISTORY (at_cnt s) then None else
+  let c := vv_inc (clk cs t) t in
+  if negb (vv_le rel c) then None else
+  match track_store s c with
+  | inl s1 => Some (atomic_store s1 t c rel vv_new v o, list_set cs t c)
+  | inr _ => None
+  end.
+
+Definition rmw_stepR (st : mstate) (t : nat) (rel : vv) (idx : nat) (f : N -> option N)
+           (so fo : ord) : option mstate :=
+  let '(s, cs) := st in
+  if negb (Nat.ltb t (length cs)) then None else
+  if Nat.leb MAX_ATOMIC_HISTORY (at_cnt s) then None else
+  let c := vv_inc (clk cs t) t in
+  if negb (vv_le rel c) then None else
+  match match_rmw_to_stores s with
+  | Some l =>
+      if existsb (Nat.eqb idx) l then
+        match atomic_rmw s t c rel idx so fo f with
+        | inl (s', c', _, _) => Some (s', list_set cs t c')
+        | inr _ => None
+        end
+      else None
+  | None => None
+  end.
+
+Lemma vv_le_new : forall c, vv_le vv_new c = true.
+Proof. intros c. apply vv_le_spec. apply vle_new. Qed.
+
+Lemma mstep_store_eq : forall st t v o,
+  mstep RModel st t (XStore v o) = store_stepR st t vv_new v o.
+Proof.
+  intros [s cs] t v o. unfold mstep, store_stepR.
+  destruct (negb (Nat.ltb t (length cs))); [reflexivity|].
+  destruct (Nat.leb MAX_ATOMIC_HISTORY (at_cnt s)); [reflexivity|].
+  cbv zeta. rewrite vv_le_new. reflexivity.
+Qed.
+
+Lemma mstep_rmw_eq : forall st t idx f so fo,
+  mstep RModel st t (XRmw idx f so fo) = rmw_stepR st t vv_new idx f so fo.
+Proof.
+  intros [s cs] t idx f so fo. unfold mstep, rmw_stepR.
+  destruct (negb (Nat.ltb t (length cs))); [reflexivity|].
+  destruct (Nat.leb MAX_ATOMIC_HISTORY (at_cnt s)); [reflexivity|].
+  cbv zeta. rewrite vv_le_new. rewrite atomic_rmw_g_model. reflexivity.
+Qed.
+
+Definition StepOut (own : nat -> nat) (s : atomic_state) (cs : list vv) (s' : atomic_state) (cs' : list vv) : Prop :=
   exists own' rk', GoodO own' rk' s' cs' /\ StampO s' cs' /\ ext own s own' s' /\
                    length cs' = length cs /\ forall u, vle (clk cs u) (clk cs' u).
+
+Theorem store_stepR_goodO : forall own rk s cs t rel v o s' cs',
+  GoodO own rk s cs -> StampO s cs -> store_stepR (s, cs) t rel v o = Some (s', cs') ->
+  StepOut own s cs s' cs'.
 Proof.
-  intros own rk s cs t op s' cs' [HI [HL [HC HSy]]] HS Hstep.
-  unfold mstep in Hstep.
+  intros own rk s cs t rel v o s' cs' [HI [HL [HC HSy]]] HS Hstep. unfold StepOut.
+  unfold store_stepR in Hstep.
   destruct (Nat.ltb_spec t (length cs)) as [Ht|Ht]; cbn [negb] in Hstep; [|discriminate].
   pose proof (i_cnt7 HI) as H7.
-  destruct op as [idx o|v o|idx f so fo|u].
-  - (* load *)
-    set (c := vv_inc (clk cs t) t) in *.
-    destruct (match_load_to_stores s t c None o) as [l|] eqn:Hm; [|discriminate].
-    destruct (existsb (Nat.eqb idx) l) eqn:He; [|discriminate].
-    apply existsb_eqb_In in He. apply (load_candidates_spec _ _ _ _ _ _ Hm idx) in He.
-    destruct He as [_ [Hidx Hall]].
-    unfold atomic_load_g in Hstep.
-    rewrite (track_load_ok' HI Ht (sf_le cs t : vle (clk cs t) c)) in Hstep. cbv zeta in Hstep.
-    inversion Hstep as [[Hs' Hcs']]. clear Hstep. subst s' cs'.
-    assert (Hcand : forall x, x < at_cnt (tl_state s c) -> x <> idx ->
-              is_seen_by_current (st_seen (get_store (tl_state s c) x)) c = true ->
-              vv_lt (mo (tl_state s c) idx) (mo (tl_state s c) x) = false).
-    { intros x Hx Hne Hs.
-      destruct (vv_lt (mo (tl_state s c) idx) (mo (tl_state s c) x)) eqn:Hlt; [|reflexivity].
-      assert (Hx7 : x < MAX_ATOMIC_HISTORY) by (change (at_cnt (tl_state s c)) with (at_cnt s) in Hx; lia).
-      destruct (Hall x Hx7 Hx Hne Hlt) as [Hns _].
-      change (get_store (tl_state s c) x) with (get_store s x) in Hs. rewrite Hs in Hns. discriminate. }
-    destruct (@model_loadpart_good own rk (tl_state s c) cs t c idx (InvO_tl c HI) (LinkO_tl c HL) HC Hidx Hcand)
-      as [HIM [[rk' [HLM _]] [HCM HLF]]].
-    set (sM := loadpart_g RModel (tl_state s c) t c idx) in *.
-    assert (HidxM : idx < at_cnt sM) by exact Hidx.
-    pose proof (@Sy_load own (tl_state s c) sM cs t c idx (InvO_tl c HI) HSy Ht (sf_fr HI Ht) HLF) as HSyM.
-    destruct (acq_clock o HIM Ht HidxM) as [H1 [_ [H3 H4]]].
-    exists own, rk'. split; [split; [apply (InvO_clock HIM Ht H1 H3 H4) | split; [exact HLM | split; [exact HCM | exact HSyM]]]|].
-    split.
-    { apply (@stamp_load_model own (tl_state s c) sM cs cs _ t c idx (InvO_tl c HI) (stamp_tl c HS) HLF
-               (@clk_set_grow cs t _ Ht H1)).
-      rewrite (clk_set cs t _ t Ht), Nat.eqb_refl. apply (sync_load_ge c _ o t). }
-    split; [apply (@ext_load_model own (tl_state s c) sM cs t c idx (InvO_tl c HI) HLF)|].
-    split; [apply list_set_length | apply (@clk_set_grow cs t _ Ht H1)].
-  - (* store *)
     destruct (Nat.leb_spec MAX_ATOMIC_HISTORY (at_cnt s)) as [Hfull|Hroom]; [discriminate|].
     set (c := vv_inc (clk cs t) t) in *.
-    rewrite (track_store_ok' HI Ht (sf_le cs t : vle (clk cs t) c)) in Hstep.
+    destruct (vv_le rel c) eqn:Hrelb; cbn [negb] in Hstep; [|discriminate].
+    assert (Hrel : vle rel c) by (apply vv_le_spec; exact Hrelb).
+    destruct (track_store s c) as [s1y|py] eqn:Htsy; [|discriminate]. apply track_store_inl in Htsy. subst s1y.
     inversion Hstep as [[Hs' Hcs']]. clear Hstep. subst s' cs'. unfold atomic_store.
     assert (HIn : InvO (fun k => if Nat.eqb k (at_cnt (ts_state s c)) then t else own k)
-                    (atomic_store_from (ts_state s c) t c vv_new vv_new v o None) (list_set cs t c)).
-    { apply (@store_phase_inv own (ts_state s c) cs t c vv_new v o None (InvO_ts c HI) Ht Hroom
-               (sf_le cs t) (sf_fr HI Ht) (sf_len HI Ht) (sf_oth HI Ht)).
+                    (atomic_store_from (ts_state s c) t c rel vv_new v o None) (list_set cs t c)).
+    { apply (@store_phase_inv own (ts_state s c) cs t c vv_new v o None rel (InvO_ts c HI) Ht Hroom
+               (sf_le cs t) (sf_fr HI Ht) (sf_len HI Ht) (sf_oth HI Ht)); [|exact Hrel].
       intros u Hu. rewrite vv_new_get. lia. }
-    destruct (@plain_store_good own rk (ts_state s c) cs t c v o (InvO_ts c HI) (LinkO_ts c HL) HC HSy
-                Ht Hroom (sf_fr HI Ht) (sf_len HI Ht)) as [[rk' HLn] [HCn HSyn]].
+    destruct (@plain_store_good own rk (ts_state s c) cs t c rel v o (InvO_ts c HI) (LinkO_ts c HL) HC HSy
+                Ht Hroom (sf_fr HI Ht) (sf_len HI Ht) Hrel) as [[rk' HLn] [HCn HSyn]].
     eexists. exists rk'. split; [split; [exact HIn | split; [exact HLn | split; [exact HCn | exact HSyn]]]|].
     split.
-    { apply (@stamp_store own (ts_state s c) cs cs _ t c vv_new v o None (InvO_ts c HI) Hroom (stamp_ts c HS)
+    { apply (@stamp_store own (ts_state s c) cs cs _ t c rel vv_new v o None (InvO_ts c HI) Hroom (stamp_ts c HS)
                (@clk_set_grow cs t _ Ht (sf_le cs t))).
       rewrite (clk_set cs t _ t Ht), Nat.eqb_refl. apply le_n. }
-    split; [apply (@store_phase_ext own (ts_state s c) cs t c vv_new v o None (InvO_ts c HI) Hroom)|].
+    split; [apply (@store_phase_ext own (ts_state s c) cs t c rel vv_new v o None (InvO_ts c HI) Hroom)|].
     split; [apply list_set_length | apply (@clk_set_grow cs t _ Ht (sf_le cs t))].
-  - (* rmw *)
+Qed.
+
+Theorem rmw_stepR_goodO : forall own rk s cs t rel idx f so fo s' cs',
+  GoodO own rk s cs -> StampO s cs -> rmw_stepR (s, cs) t rel idx f so fo = Some (s', cs') ->
+  StepOut own s cs s' cs'.
+Proof.
+  intros own rk s cs t rel idx f so fo s' cs' [HI [HL [HC HSy]]] HS Hstep. unfold StepOut.
+  unfold rmw_stepR in Hstep.
+  destruct (Nat.ltb_spec t (length cs)) as [Ht|Ht]; cbn [negb] in Hstep; [|discriminate].
+  pose proof (i_cnt7 HI) as H7.
     destruct (Nat.leb_spec MAX_ATOMIC_HISTORY (at_cnt s)) as [Hfull|Hroom]; [discriminate|].
     set (c := vv_inc (clk cs t) t) in *.
+    destruct (vv_le rel c) eqn:Hrelb; cbn [negb] in Hstep; [|discriminate].
+    assert (Hrel : vle rel c) by (apply vv_le_spec; exact Hrelb).
     destruct (match_rmw_to_stores s) as [l|] eqn:Hm; [|discriminate].
     destruct (existsb (Nat.eqb idx) l) eqn:He; [|discriminate].
     apply existsb_eqb_In in He. apply (rmw_candidates_spec _ _ Hm idx) in He.
     destruct He as [_ [Hidx Hall]].
-    unfold atomic_rmw_g in Hstep.
-    rewrite (track_load_ok' HI Ht (sf_le cs t : vle (clk cs t) c)) in Hstep. cbv zeta in Hstep.
+    rewrite <- atomic_rmw_g_model in Hstep. unfold atomic_rmw_g in Hstep.
+    destruct (track_load s c) as [s1x|px] eqn:Htlx; [|discriminate]. apply track_load_inl in Htlx. subst s1x. cbv zeta in Hstep.
     assert (Hcand : forall x, x < at_cnt (tl_state s c) -> x <> idx ->
               is_seen_by_current (st_seen (get_store (tl_state s c) x)) c = true ->
               vv_lt (mo (tl_state s c) idx) (mo (tl_state s c) x) = false).
@@ -2040,7 +2074,7 @@ Proof.
     pose proof (@Sy_load own (tl_state s c) sM cs t c idx (InvO_tl c HI) HSy Ht (sf_fr HI Ht) HLF) as HSyM.
     pose proof (@ext_load_model own (tl_state s c) sM cs t c idx (InvO_tl c HI) HLF) as HextM.
     destruct (f (st_value (get_store sM idx))) as [next|].
-    + rewrite (track_store_ok' HIM Ht (sf_le cs t : vle (clk cs t) c)) in Hstep.
+    + destruct (track_store sM c) as [s1y|py] eqn:Htsy; [|discriminate]. apply track_store_inl in Htsy. subst s1y.
       inversion Hstep as [[Hs' Hcs']]. clear Hstep. subst s' cs'.
       destruct (acq_clock so HIM Ht HidxM) as [H1 [H2 [H3 H4]]].
       set (c' := sync_load c (st_sync (get_store sM idx)) so) in *.
@@ -2065,27 +2099,28 @@ Proof.
         eapply Nat.le_trans; [|apply (sync_load_ge c (st_sync (get_store sM idx)) so t)].
         destruct Hx as [Hx|Hx]; [subst x; apply le_n|].
         pose proof (Hb idx t x Hidx Hx) as Hw. pose proof (sf_fr HI Ht) as Hf. fold c in Hf. lia. }
+      assert (Hrel' : vle rel c') by (eapply vle_trans; [exact Hrel | apply sync_load_ge]).
       assert (HIn : InvO (fun k => if Nat.eqb k (at_cnt (ts_state sM c)) then t else own k)
-                      (atomic_store_from (ts_state sM c) t c' vv_new (st_sync (get_store (ts_state sM c) idx)) next so
+                      (atomic_store_from (ts_state sM c) t c' rel (st_sync (get_store (ts_state sM c) idx)) next so
                          (Some (idx, st_id (get_store (ts_state sM c) idx)))) (list_set cs t c')).
-      { apply (@store_phase_inv own (ts_state sM c) cs t _ _ next so _ (InvO_ts c HIM) Ht Hroom H1 H2 H3 H4).
+      { apply (@store_phase_inv own (ts_state sM c) cs t _ _ next so _ rel (InvO_ts c HIM) Ht Hroom H1 H2 H3 H4); [|exact Hrel'].
         intros u Hu. change (get_store (ts_state sM c) idx) with (get_store sM idx).
         pose proof (i_bsync HIM HidxM Hu) as Hb.
         rewrite (clk_set cs t _ u Ht). destruct (Nat.eqb_spec u t) as [Heq|_]; [|exact Hb].
         subst u. eapply Nat.le_trans; [exact Hb|]. apply Nat.lt_le_incl. exact H2. }
-      destruct (@rmw_store_good own rk' (ts_state sM c) cs t c' next so idx (InvO_ts c HIM) (LinkO_ts c HLM) HCM HSyM
-                  Ht Hroom H2 H3 HidxM HmaxM HseenB Hidxseen) as [[rk'' HLn] [HCn HSyn]].
+      destruct (@rmw_store_good own rk' (ts_state sM c) cs t c' rel next so idx (InvO_ts c HIM) (LinkO_ts c HLM) HCM HSyM
+                  Ht Hroom H2 H3 Hrel' HidxM HmaxM HseenB Hidxseen) as [[rk'' HLn] [HCn HSyn]].
       eexists. exists rk''. split; [split; [exact HIn | split; [exact HLn | split; [exact HCn | exact HSyn]]]|].
       split.
       { assert (HS3 : StampO sM (list_set cs t c')).
         { apply (@stamp_load_model own (tl_state s c) sM cs cs _ t c idx (InvO_tl c HI) (stamp_tl c HS) HLF
                    (@clk_set_grow cs t _ Ht H1)).
           rewrite (clk_set cs t _ t Ht), Nat.eqb_refl. apply (sync_load_ge c _ so t). }
-        apply (@stamp_store own (ts_state sM c) cs _ _ t _ _ next so _ (InvO_ts c HIM) Hroom (stamp_ts c HS3) (fun u0 => vle_refl _)).
+        apply (@stamp_store own (ts_state sM c) cs _ _ t _ rel _ next so _ (InvO_ts c HIM) Hroom (stamp_ts c HS3) (fun u0 => vle_refl _)).
         rewrite (clk_set cs t _ t Ht), Nat.eqb_refl. apply le_n. }
       split.
       { eapply ext_trans; [exact HextM|].
-        apply (@store_phase_ext own (ts_state sM c) cs t _ _ next so _ (InvO_ts c HIM) Hroom). }
+        apply (@store_phase_ext own (ts_state sM c) cs t _ rel _ next so _ (InvO_ts c HIM) Hroom). }
       split; [apply list_set_length | apply (@clk_set_grow cs t _ Ht H1)].
     + inversion Hstep as [[Hs' Hcs']]. clear Hstep. subst s' cs'.
       destruct (acq_clock fo HIM Ht HidxM) as [H1 [_ [H3 H4]]].
@@ -2096,6 +2131,60 @@ Proof.
         rewrite (clk_set cs t _ t Ht), Nat.eqb_refl. apply (sync_load_ge c _ fo t). }
       split; [exact HextM|].
       split; [apply list_set_length | apply (@clk_set_grow cs t _ Ht H1)].
+Qed.
+
+Theorem mstep_goodO : forall own rk s cs t op s' cs',
+  GoodO own rk s cs -> StampO s cs -> mstep RModel (s, cs) t op = Some (s', cs') ->
+  exists own' rk', GoodO own' rk' s' cs' /\ StampO s' cs' /\ ext own s own' s' /\
+                   length cs' = length cs /\ forall u, vle (clk cs u) (clk cs' u).
+Proof.
+  intros own rk s cs t op s' cs' [HI [HL [HC HSy]]] HS Hstep.
+  unfold mstep in Hstep.
+  destruct (Nat.ltb_spec t (length cs)) as [Ht|Ht]; cbn [negb] in Hstep; [|discriminate].
+  pose proof (i_cnt7 HI) as H7.
+  destruct op as [idx o|v o|idx f so fo|u].
+  - (* load *)
+    set (c := vv_inc (clk cs t) t) in *.
+    destruct (match_load_to_stores s t c None o) as [l|] eqn:Hm; [|discriminate].
+    destruct (existsb (Nat.eqb idx) l) eqn:He; [|discriminate].
+    apply existsb_eqb_In in He. apply (load_candidates_spec _ _ _ _ _ _ Hm idx) in He.
+    destruct He as [_ [Hidx Hall]].
+    unfold atomic_load_g in Hstep.
+    destruct (track_load s c) as [s1x|px] eqn:Htlx; [|discriminate]. apply track_load_inl in Htlx. subst s1x. cbv zeta in Hstep.
+    inversion Hstep as [[Hs' Hcs']]. clear Hstep. subst s' cs'.
+    assert (Hcand : forall x, x < at_cnt (tl_state s c) -> x <> idx ->
+              is_seen_by_current (st_seen (get_store (tl_state s c) x)) c = true ->
+              vv_lt (mo (tl_state s c) idx) (mo (tl_state s c) x) = false).
+    { intros x Hx Hne Hs.
+      destruct (vv_lt (mo (tl_state s c) idx) (mo (tl_state s c) x)) eqn:Hlt; [|reflexivity].
+      assert (Hx7 : x < MAX_ATOMIC_HISTORY) by (change (at_cnt (tl_state s c)) with (at_cnt s) in Hx; lia).
+      destruct (Hall x Hx7 Hx Hne Hlt) as [Hns _].
+      change (get_store (tl_state s c) x) with (get_store s x) in Hs. rewrite Hs in Hns. discriminate. }
+    destruct (@model_loadpart_good own rk (tl_state s c) cs t c idx (InvO_tl c HI) (LinkO_tl c HL) HC Hidx Hcand)
+      as [HIM [[rk' [HLM _]] [HCM HLF]]].
+    set (sM := loadpart_g RModel (tl_state s c) t c idx) in *.
+    assert (HidxM : idx < at_cnt sM) by exact Hidx.
+    pose proof (@Sy_load own (tl_state s c) sM cs t c idx (InvO_tl c HI) HSy Ht (sf_fr HI Ht) HLF) as HSyM.
+    destruct (acq_clock o HIM Ht HidxM) as [H1 [_ [H3 H4]]].
+    exists own, rk'. split; [split; [apply (InvO_clock HIM Ht H1 H3 H4) | split; [exact HLM | split; [exact HCM | exact HSyM]]]|].
+    split.
+    { apply (@stamp_load_model own (tl_state s c) sM cs cs _ t c idx (InvO_tl c HI) (stamp_tl c HS) HLF
+               (@clk_set_grow cs t _ Ht H1)).
+      rewrite (clk_set cs t _ t Ht), Nat.eqb_refl. apply (sync_load_ge c _ o t). }
+    split; [apply (@ext_load_model own (tl_state s c) sM cs t c idx (InvO_tl c HI) HLF)|].
+    split; [apply list_set_length | apply (@clk_set_grow cs t _ Ht H1)].
+  - (* store *)
+    rewrite <- (Nat.ltb_lt t (length cs)) in Ht.
+    assert (Hs : mstep RModel (s, cs) t (XStore v o) = Some (s', cs')).
+    { unfold mstep. rewrite Ht. cbn [negb]. exact Hstep. }
+    rewrite mstep_store_eq in Hs.
+    apply (@store_stepR_goodO own rk s cs t vv_new v o s' cs' (conj HI (conj HL (conj HC HSy))) HS Hs).
+  - (* rmw *)
+    rewrite <- (Nat.ltb_lt t (length cs)) in Ht.
+    assert (Hs : mstep RModel (s, cs) t (XRmw idx f so fo) = Some (s', cs')).
+    { unfold mstep. rewrite Ht. cbn [negb]. exact Hstep. }
+    rewrite mstep_rmw_eq in Hs.
+    apply (@rmw_stepR_goodO own rk s cs t vv_new idx f so fo s' cs' (conj HI (conj HL (conj HC HSy))) HS Hs).
   - (* sync *)
     destruct (Nat.ltb_spec u (length cs)) as [Hu|Hu]; [|discriminate].
     inversion Hstep as [[Hs' Hcs']]. clear Hstep. subst s' cs'.
@@ -2310,7 +2399,7 @@ Proof.
   apply existsb_eqb_In in He. apply (load_candidates_spec _ _ _ _ _ _ Hm i) in He.
   destruct He as [H7 [Hidx Hall]].
   unfold atomic_load_g in Hstep.
-  rewrite (track_load_ok' HI Ht (sf_le cs t : vle (clk cs t) c)) in Hstep. cbv zeta in Hstep.
+  destruct (track_load s c) as [s1x|px] eqn:Htlx; [|discriminate]. apply track_load_inl in Htlx. subst s1x. cbv zeta in Hstep.
   inversion Hstep as [Hst]. clear Hstep Hst. cbn [fst snd].
   split; [exact Hidx|].
   assert (Hcand : forall x, x < at_cnt (tl_state s c) -> x <> i ->
